@@ -173,6 +173,43 @@ package proto
 //@   ensures err == nil ==> wfArr(c) {offsets-consistent}
 //@   ensures err == nil ==> r.failed == old(r.failed)
 //@   ensures old(r.pos) <= r.pos && r.pos <= r.end
+//@   ensures err == nil ==> forall e in 0..rows :: c.Offsets[e] == unle64(r.in[old(r.pos) + 8 * e], r.in[old(r.pos) + 8 * e + 1], r.in[old(r.pos) + 8 * e + 2], r.in[old(r.pos) + 8 * e + 3], r.in[old(r.pos) + 8 * e + 4], r.in[old(r.pos) + 8 * e + 5], r.in[old(r.pos) + 8 * e + 6], r.in[old(r.pos) + 8 * e + 7]) [C01,C08] {offsets-are-the-first-8-bytes-per-row-of-the-stream}
+//@ callsite ColumnOf.DecodeColumn
+//@   assert r.pos == old(r.pos) + 8 * rows [C01,C08] {element-data-follows-the-offsets-immediately}
+//@   assert 0 <= size && size <= maxRowsInBLock [C01,C06] {element-count-within-the-cap}
+//@   assert rows == 0 ==> size == 0 [C01,C06] {no-elements-for-no-rows}
+//@   assert rows > 0 ==> size == i64(c.Offsets[len(c.Offsets) - 1]) [C01,C06] {element-count-is-the-last-offset}
+
+//@ -- Array(T) on the wire: rows cumulative end offsets (UInt64 little endian), then the flattened
+//@ -- elements; nothing else, and nothing between them
+//@ contract (c ColArr) EncodeColumn(b) props(C01,C16)
+//@   requires b != nil && c.Data != nil
+//@   modifies b.Buf
+//@   ensures appendsOnly(b) {append-only}
+//@   ensures len(b.Buf) >= old(len(b.Buf)) + 8 * len(c.Offsets) && imgColUInt64(arrayof(b.Buf), offset(b.Buf) + old(len(b.Buf)), c.Offsets, len(c.Offsets)) {offsets-first}
+//@ callsite ColumnOf.EncodeColumn
+//@   assert len(b.Buf) == old(len(b.Buf)) + 8 * len(c.Offsets) {element-data-follows-the-offsets-immediately}
+
+//@ -- Nullable(T) on the wire: one null-mask byte per row, then the values
+//@ contract (c ColNullable) EncodeColumn(b) props(C01,C16)
+//@   requires b != nil && c.Values != nil
+//@   modifies b.Buf
+//@   ensures appendsOnly(b) {append-only}
+//@   ensures len(b.Buf) >= old(len(b.Buf)) + len(c.Nulls) && imgColUInt8(arrayof(b.Buf), offset(b.Buf) + old(len(b.Buf)), c.Nulls, len(c.Nulls)) {null-mask-first}
+//@ callsite ColumnOf.EncodeColumn
+//@   assert len(b.Buf) == old(len(b.Buf)) + len(c.Nulls) {values-follow-the-null-mask-immediately}
+
+//@ -- Map(K, V) on the wire: nothing for an empty column, else offsets, keys, values
+//@ contract (c ColMap) EncodeColumn(b) props(C01,C16)
+//@   requires b != nil && c.Keys != nil && c.Values != nil
+//@   modifies b.Buf
+//@   ensures appendsOnly(b) {append-only}
+//@   ensures len(c.Offsets) == 0 ==> len(b.Buf) == old(len(b.Buf)) {nothing-for-an-empty-column}
+//@   ensures len(c.Offsets) > 0 ==> len(b.Buf) >= old(len(b.Buf)) + 8 * len(c.Offsets) && imgColUInt64(arrayof(b.Buf), offset(b.Buf) + old(len(b.Buf)), c.Offsets, len(c.Offsets)) {offsets-first}
+//@ callsite ColumnOf.EncodeColumn#1
+//@   assert len(b.Buf) == old(len(b.Buf)) + 8 * len(c.Offsets) {keys-follow-the-offsets-immediately}
+//@ callsite ColumnOf.EncodeColumn#2
+//@   assert len(b.Buf) >= old(len(b.Buf)) + 8 * len(c.Offsets) {values-after-the-keys}
 
 //@ contract (c ColArr) RowAppend(i, target) (out) props(C06)
 //@   requires c.Data != nil && wfArr(c) && 0 <= i && i < len(c.Offsets)
